@@ -27,6 +27,14 @@ fn case_strategy() -> BoxedStrategy<Case> {
         prop_oneof![
             6 => stream_strategy(4, Shape { depth: 4, size: 14, ..Shape::COMMON_NULL }),
             1 => stream_strategy(3, Shape::COMMON_NULL),
+            // YAML in UTF-16/32: the re-encoder sits between the reader and the parser
+            2 => (stream_strategy(3, Shape { depth: 3, size: 8, ..Shape::COMMON_NULL }), 0usize..4, any::<bool>()).prop_map(|(s, enc, bom)| {
+                let docs: Vec<_> = s.docs.iter().filter(|d| crate::wr_yaml::supports(d)).cloned().collect();
+                let docs = if docs.is_empty() { vec![crate::model::Val::Seq(vec![])] } else { docs };
+                let text = crate::wr_yaml::write_stream(&docs, &[Style::canonical()], &[0, 1, 0]);
+                let bom = bom || !text.chars().next().map_or(false, |c| c.is_ascii());
+                crate::corpus::Stream { fmt: Fmt::Yaml, docs, bytes: crate::checks::c07::encode_text(&text, crate::checks::c07::ENCODINGS[enc], bom) }
+            }),
         ],
         any::<bool>(),
         crate::checks::c01::fmt_strategy(),
@@ -155,6 +163,40 @@ fn check_case(c: &Case, rec: &mut Recorder) -> Result<(), (String, J)> {
             rec.class("fault:reader_after_first_document");
         }
     }
+    // --- a transient fault: ONE read fails with ErrorKind::Interrupted once k bytes
+    // were delivered, then the reader works again. Either the error is reported,
+    // or the whole input is translated: never success with part of the input.
+    // Only with the source format named: under detection a transient error during a
+    // trial legitimately reads as "not this format" and another format may then
+    // accept the same bytes (the statement only speaks of readers that keep failing).
+    if clean.verdict.is_ok() && !c.detect {
+        let ks: Vec<usize> = if n <= 512 { (0..=n).collect() } else { (0..=128).map(|i| i * n / 128).collect() };
+        for k in ks {
+            let mut out = vec![];
+            let mut reader = SchedReader::new(&c.bytes, c.sched.clone());
+            reader.interrupt_at = Some(k);
+            let verdict = guarded(|| xt::translate_reader(&mut reader, from.map(Fmt::xt), c.to.xt(), &mut out));
+            let cj = || case_json(c, json!({"fault": "interrupted_once", "k": k}));
+            match &verdict {
+                Verdict::Panic(p) => return Err((format!("reader interrupted once at byte {}: panic: {}", k, p), cj())),
+                Verdict::Ok => {
+                    if out != clean.out {
+                        return Err((
+                            format!("reader interrupted once at byte {} of {}: the translation reported success with output {:?}, the fault-free output is {:?}", k, n, brief_bytes(&out), brief_bytes(&clean.out)),
+                            cj(),
+                        ));
+                    }
+                }
+                Verdict::Err(_) => {
+                    if !is_prefix(&out, &clean.out) && complete_docs(&out, c.to, true).iter().zip(&clean_docs).any(|(a, b)| a != b) {
+                        return Err((format!("reader interrupted once at byte {}: documents written before the error differ from the fault-free output", k), cj()));
+                    }
+                }
+            }
+            rec.count(if k > 0 { Some(hash_bytes(&[&c.bytes, c.to.name().as_bytes(), b"i", &(k as u64).to_le_bytes()])) } else { None });
+            rec.class("fault:reader_interrupted_once");
+        }
+    }
     // --- writer faults at every offset of the fault-free output
     if clean.verdict.is_ok() {
         let m = clean.out.len();
@@ -258,7 +300,7 @@ impl Check for C12 {
         "fault_enumeration"
     }
     fn rule(&self) -> String {
-        "For generated valid streams (1..4 documents of each format; source named or detected; every target; a drawn read schedule): (a) a reader that fails - and keeps failing - once k bytes were delivered, for EVERY k in 0..=|input| (257 spread values above 2 KiB): the result must be Err whose text contains INJECTED-R-k (or the input's own fault-free error when that strikes first), never Ok or a panic, and the complete documents in the partial output (lines for JSON, '---'-introduced documents for YAML, whole values for MessagePack, all-or-nothing for TOML) must be, in order, a prefix of the fault-free documents; (b) a writer that accepts exactly k bytes and then fails, for EVERY k below the fault-free output length (256 spread values above 1 KiB): Err, and the accepted bytes are a prefix of the fault-free output; (c) a writer that only accepts short pieces (1 byte; a drawn pattern) and never fails: Ok and exactly the fault-free bytes; unit 'flush' checks that Translator::flush reaches the writer and preserves its error. One evaluation = one injected fault; non-trivial = the fault lands after the first document or inside detection's look-ahead (reader), after byte 0 (writer), any short-write run; distinct by hash of (input, target, fault kind, k).".into()
+        "For generated valid streams (1..4 documents of each format, YAML also re-encoded as UTF-16/32; source named or detected; every target; a drawn read schedule): (a) a reader that fails - and keeps failing - once k bytes were delivered, for EVERY k in 0..=|input| (257 spread values above 2 KiB): the result must be Err whose text contains INJECTED-R-k (or the input's own fault-free error when that strikes first), never Ok or a panic, and the complete documents in the partial output (lines for JSON, '---'-introduced documents for YAML, whole values for MessagePack, all-or-nothing for TOML) must be, in order, a prefix of the fault-free documents; (b) a writer that accepts exactly k bytes and then fails, for EVERY k below the fault-free output length (256 spread values above 1 KiB): Err, and the accepted bytes are a prefix of the fault-free output; (a') a reader of which ONE read fails with ErrorKind::Interrupted after k bytes and which then works again, for every k, source format named: Err, or Ok with exactly the fault-free output (an addition beyond the statement's keep-failing readers; it holds on the unchanged tree); (c) a writer that only accepts short pieces (1 byte; a drawn pattern) and never fails: Ok and exactly the fault-free bytes; unit 'flush' checks that Translator::flush reaches the writer and preserves its error. One evaluation = one injected fault; non-trivial = the fault lands after the first document or inside detection's look-ahead (reader), after byte 0 (writer), any short-write run; distinct by hash of (input, target, fault kind, k).".into()
     }
     fn assumptions(&self) -> Vec<String> {
         vec!["faulty readers keep failing once they failed (as the statement says)".into()]
@@ -267,7 +309,7 @@ impl Check for C12 {
         vec![Unit::gen("faults", 16, tier.pick(600, 6000)), Unit::enumerate("flush", 1)]
     }
     fn required_classes(&self, _tier: Tier) -> Vec<&'static str> {
-        vec!["fault:reader", "fault:reader_after_first_document", "fault:writer", "fault:short_writes", "fault:flush", "from:detect", "from:yaml", "from:json", "from:msgpack", "from:toml", "to:json", "to:yaml", "to:toml", "to:msgpack"]
+        vec!["fault:reader", "fault:reader_interrupted_once", "fault:reader_after_first_document", "fault:writer", "fault:short_writes", "fault:flush", "from:detect", "from:yaml", "from:json", "from:msgpack", "from:toml", "to:json", "to:yaml", "to:toml", "to:msgpack"]
     }
     fn run_unit(&self, unit: &Unit, _shard: u32, seed: u64, _tier: Tier, rec: &mut Recorder) {
         match unit.name {
